@@ -85,7 +85,10 @@ def gen_task(rng, alphabet, nops, env, state):
             if env.ncv == 0:
                 continue
             code.append(op(k, o=rng.randrange(env.ncv)))
-        elif k in ("load", "store", "fadd", "swap", "fsub", "fmax", "fmin", "cas"):
+        elif k.startswith("b_"):
+            # the AtomicBool cell of the atomic family is the extra cell after the env.natom u8 cells
+            code.append(op(k, o=env.natom, v=rng.randrange(2), w=rng.choice([0, 1, 4]) if k not in ("b_load", "b_store") else rng.choice([0, 1])))
+        elif k in ("load", "store", "fadd", "swap", "fsub", "fmax", "fmin", "cas", "fand", "for", "fxor", "fnand"):
             if env.natom == 0:
                 continue
             a = rng.randrange(env.natom)
@@ -189,7 +192,8 @@ FAMILIES = {
     "kernel": (["load", "store", "fadd", "yield", "sleep", "spin"], dict(natom=2)),
     "kernel_rand": (["load", "store", "fadd", "yield", "rand", "rand", "spin"], dict(natom=1)),
     "mutex": (["lock", "lock", "try_lock", "unlock", "ginc", "gget", "yield", "load", "store"], dict(nmutex=2, natom=1)),
-    "atomic": (["load", "store", "fadd", "swap", "fsub", "fmax", "fmin", "cas"], dict(natom=2)),
+    "atomic": (["load", "store", "fadd", "swap", "fsub", "fmax", "fmin", "cas", "fand", "for", "fxor", "fnand",
+                "b_load", "b_store", "b_swap", "b_and", "b_or", "b_xor", "b_nand", "b_nand"], dict(natom=2)),
     "rwlock": (["read", "write", "try_read", "try_write", "unlock", "ginc", "gget", "yield"], dict(nrw=1, natom=1)),
     "condvar": (["lock", "cv_wait", "notify_one", "notify_all", "unlock", "store", "load"], dict(nmutex=1, ncv=1, natom=1)),
     "park": (["park", "unpark", "yield", "store", "load"], dict(natom=1)),
@@ -234,10 +238,15 @@ def gen_mpsc(count, seed, drops=False, first_id=2000, fam="mpsc"):
             if drops and rng.random() < 0.6:
                 tasks[c].append(op("drop_tx", o=0, w=c))
         nrecv = rng.randint(1, 3)
-        for j in range(nrecv):
-            main.append(op("try_recv" if rng.random() < 0.3 else "recv", o=0))
-        if drops and rng.random() < 0.4:
-            main.append(op("drop_rx", o=0))
+        if rng.random() < 0.25:
+            # the receiver is consumed through its owning iterator (`for x in rx`)
+            for j in range(nrecv):
+                main.append(op("recv", o=0, w=1))
+        else:
+            for j in range(nrecv):
+                main.append(op("try_recv" if rng.random() < 0.3 else "recv", o=0))
+            if drops and rng.random() < 0.4:
+                main.append(op("drop_rx", o=0))
         for c in range(1, n):
             if rng.random() < 0.7:
                 main.append(op("join", v=c))
@@ -479,6 +488,9 @@ def gen_family(fam, count, seed, ntasks=(2, 3), nops=(1, 3), first_id=1000):
         if objs.get("nsem"):
             kw["sems"] = [(rng.randint(0, 2), 1 if fam == "sem_fair" else 0)]
         pr = prog(first_id + i, fam, tasks, **kw)
+        if fam == "atomic":
+            pr["atomics"] = pr["atomics"] + [rng.randrange(2)]
+            pr["boolcells"] = [len(pr["atomics"]) - 1]
         if fam == "tls":
             # destructors that read another key (alive, already destroyed, or never initialised) and/or yield while dropping
             pr["tls_touch"] = [rng.choice([-1, -1] + [x for x in range(3) if x != k_]) for k_ in range(3)]
